@@ -181,12 +181,19 @@ def run(ctx, rep, tier):
     if g1:
         rep.check(bool(g1[0].orelse) and "trans.attach(action)" in ast.unparse(g1[0].orelse[0]), "C01.e", "DFA.chain_actions_into", "otherwise the action is attached (appended) to the incoming transition",
                   "non-strict attach arm changed")
+    cai = model.func("DFA.chain_actions_into")
+    shape = model.has("DFA.chain_actions_into", "for finish in target_states:\n    for incoming, trans in self.transitions_pointing_to(finish, include_states=True):\n        for action in actions:\n            ...")
+    escapes = [n for n in ast.walk(cai) if isinstance(n, (ast.Continue, ast.Break, ast.Return))]
+    rep.check(shape and not escapes, "C01.r", "DFA.chain_actions_into", "every action goes onto every transition entering every target state (no filter, no early exit)",
+              "chain_actions_into skips some entering transitions: the statements chained after a construct are lost on those paths (e.g. `try { \"ab\"; yield A; } catch { .. } finish F;` - "
+              "the yield path ends with plain DONE instead of FINISH_F)")
     rep.check(model.has("DFA.chain_actions_into", "actions = list(actions)\nstrict_actions = timing_strict_actions(actions)"), "C01.l", "DFA.chain_actions_into",
               "the action iterable is materialised before it is judged and replicated", "an iterator consumed by the group test leaves nothing to attach")
     raised = ast.unparse(model.func("DFA.chain_actions_into")) + ast.unparse(model.func("RegexMatch.convert")) + ast.unparse(model.func("CaseNode.convert"))
     rep.check(raised.count("raise UnableToScheduleActionError(") == 3, "C01.e", "UnableToScheduleActionError", "raised at the three multi-attach sites", "scheduling refusals changed")
 
     # ------------------------------------------------------------------ C01.l group strictness
+    rep.rule("C01.r", "chained actions reach every path into the states they are chained to")
     rep.rule("C01.l", "a replicated group of finish actions is refused when an action reads an output that it or a later action of the group modifies; reads()/modifies() cover every expression / output of each action class")
     if GROUP not in model.functions:
         rep.bad("C01.l", GROUP, "group strictness", "finish-action groups are judged per action only: write-after-read inside a replicated group is accepted")
